@@ -142,6 +142,13 @@ const D = {
   dirThenBareJsx:  { tpl: (i) => `__out.k${i} = () => <Comp v-foo={x} icon=<B /> />;`, jsx: true },
   selfAssignArrowParam: { tpl: (i) => `const ap${i} = (p) => (p = <Comp>{p}</Comp>);\n__out.k${i} = () => ap${i}(x);`, jsx: true },
   selfAssignArrowLet: { tpl: (i) => `let sq${i} = x;\nconst aq${i} = () => (sq${i} = <B>{sq${i}}</B>);\n__out.k${i} = () => aq${i}();`, jsx: true },
+  // `await` / `yield` of the enclosing function: fine among an element's children, not available inside a slot function
+  awaitInElement: { tpl: (i) => `async function ae${i}() { return <div>{await idf(x)}</div>; }\n__out.k${i} = () => typeof ae${i}().then;`, jsx: true },
+  awaitInAttr:    { tpl: (i) => `async function aa2${i}() { return <Comp id={await idf(x)} />; }\n__out.k${i} = () => typeof aa2${i}().then;`, jsx: true },
+  awaitInSlot:    { tpl: (i) => `async function as${i}() { return <Comp><div>{await idf(x)}</div></Comp>; }\n__out.k${i} = () => typeof as${i}().then;`, jsx: true, diag: true },
+  awaitSoleChild: { tpl: (i) => `async function ac${i}() { return <Comp>{await idf(x)}</Comp>; }\n__out.k${i} = () => typeof ac${i}().then;`, jsx: true, diag: true },
+  yieldInSlot:    { tpl: (i) => `function* ys${i}() { return <Comp>{yield 1}{x}</Comp>; }\n__out.k${i} = () => typeof ys${i}().next;`, jsx: true, diag: true },
+  awaitInNestedFn: { tpl: (i) => `async function an${i}() { return <Comp>{async () => await idf(x)}</Comp>; }\n__out.k${i} = () => typeof an${i}().then;`, jsx: true },
   pragmaLike:  { tpl: (i) => `const pr${i} = <div class={c1}>{xx}</div>;\n__out.k${i} = () => pr${i};`, jsx: true },
 };
 
